@@ -735,6 +735,19 @@ def check(ctx):
                 k = (t[0] + ":" + t[3]) if t[0] == "mut" else t[0]
                 ops[k] = ops.get(k, 0) + 1
         ctx.cov["op_histogram"] = ops
+        depth = {}
+        for h in hs:
+            for l in h:
+                t = l.split()
+                if t[0] in ("mut", "get"):
+                    pth = t[2] if t[0] == "mut" else t[3]
+                    d = 0 if pth == "." else pth.count("/") + 1
+                    depth[d] = depth.get(d, 0) + 1
+        ctx.cov["path_depth_histogram"] = {str(k): depth[k] for k in sorted(depth)}
+        refused = 0
+        for h in hs[-200:]:
+            refused += sum(1 for o in reference(h) if o == "bad-op")
+        ctx.cov["refused_lines_in_last_200_random_histories"] = f"{refused} of {sum(len(h) for h in hs[-200:])}"
         ctx.cov["samples"] = [" ; ".join(h) for h in (hs[-3:] + hs[len(hs) // 2: len(hs) // 2 + 2])]
         diffs = C.differential(ctx, harness, C.driver_path(DRIVER), hs, reference, line_eq, nontrivial=nontrivial)
         ctx.log(f"{len(hs)} histories, {ctx.cov['evaluations']} op lines, {len(diffs)} disagreement(s)")
